@@ -84,9 +84,9 @@ if [ "$(cat "$OUT/.hxkey" 2>/dev/null || true)" != "$HKEY" ]; then
   HCFL=$CFL
   # the work meter must not meter the harness itself
   [ "$FLAV" = cost ] && HCFL="-O1 -g"
-  LIBS="-lz -llzma -ldl -lpthread"
+  LIBS="-lz -llzma -ldl -lpthread -rdynamic"
   COMMON=""
-  for c in hx gen ref; do
+  for c in hx gen ref corpus; do
     [ -f "$HERE/$c.c" ] || continue
     $CC $HCFL $DEFS $INCS -DHX_FLAVOUR_$FLAV -Wall -Wno-unused-function -c "$HERE/$c.c" -o "$OUT/$c.o"
     COMMON="$COMMON $OUT/$c.o"
